@@ -13,7 +13,9 @@ TRUSTED = [
     "byte offsets via a UTF-8 length function in the model",
 ]
 
-PIECES = ["//", "/*", "*/", "\"", "\\", "'", "r#\"", "\"#", "b'x'", "'a", "\n", "*", " ", "a", "bc", "/", "#", "r", "é", "\t", "\r\n", "//!", "/**", "x y"]
+PIECES = ["//", "/*", "*/", "\"", "\\", "'", "r#\"", "\"#", "b'x'", "'a", "\n", "*", " ", "a", "bc", "/", "#", "r", "é", "\t", "\r\n", "//!", "/**", "x y",
+          # complete char / byte literals, the ones holding a quote or a backslash included
+          "'x'", "'\"'", "b'\"'", "'\\''", "'\\\\'", "'\\n'"]
 WORDS = ["alpha", "beta", "gamma", "a", "of", "https://example.com/a/very/long/url/that/does/not/fit/anywhere/really.html", "supercalifragilisticexpialidocious_and_more_and_more", "x*y", "a/b", "`code`", "1.", "-", "*", "TODO:", "é中"]
 
 
@@ -210,7 +212,7 @@ def e2e(rep, tier, seed):
         n = 0
         for kind, spans in sorted(by_kind.items()):
             for (lo, hi) in rnd.sample(spans, min(2, len(spans))):
-                for style in ("block_before", "line_before", "line_after"):
+                for style in ("block_before", "line_before", "line_after", "block_after"):
                     n += 1
                     mark = "CMT%dQ" % n
                     if style == "block_before":
@@ -225,9 +227,25 @@ def e2e(rep, tier, seed):
                         k = b.find(b"\n", j)
                         if k < 0 or b[j:k].strip() != b"":
                             continue
-                        text = b[:j] + (" // %s" % mark).encode() + b[j:]
-                    cases.append({"text": text.decode("utf-8", "replace"), "config": p["header"], "again": False, "lex": False})
-                    meta.append((p["id"], kind, style, mark))
+                        text = b[:j] + ((" // %s" if style == "line_after" else " /* %s */") % mark).encode() + b[j:]
+                    # under the program's own configuration and under the newest style edition
+                    cfgs = [p["header"]]
+                    if n % 2 == 0 and not any(k in ("style_edition", "version") for k, _ in p["header"]):
+                        cfgs.append(pool.merged(p["header"], [["style_edition", "2024"]]))
+                    for cfg in cfgs:
+                        cases.append({"text": text.decode("utf-8", "replace"), "config": cfg, "again": False, "lex": False})
+                        meta.append((p["id"], kind, style, mark))
+    # synthetic: a comment where no rewriter places one (between an operand and the operator), so that only the
+    # safety net keeps it, preceded by literals whose quotes / comment openers the classifier must not misread
+    LITS = ["'\"'", "b'\"'", "'\\''", "\"\\\"\"", "r#\"\"\"#", "'a'", "\"//\"", "\"/*\"", "'/'", "b\"*/\"", "'\\\\'"]
+    si = 0
+    for lit in LITS:
+        for cm in ("/* %s */", "// %s\n       "):
+            for tmpl in ("fn f(c: u8) -> bool {\n    c == %s %s || c == 'x'\n}\n", "fn g() {\n    let v = h(%s, 1) %s + 2;\n}\n", "fn k() {\n    m(%s) %s .n();\n}\n"):
+                si += 1
+                mark = "SYN%dQ" % si
+                cases.append({"text": tmpl % (lit, cm % mark), "config": [], "again": False, "lex": False})
+                meta.append(("synth/%d" % si, "expr", "net_only", mark))
     res = common.run_vh_pool("pool", cases, per_case_timeout=15)
     found = n = 0
     per = {}
@@ -244,7 +262,7 @@ def e2e(rep, tier, seed):
                 found += 1
     rep.coverage["e2e_injections_judged"] = n
     rep.coverage["e2e_per_position"] = {"%s/%s" % k: v for k, v in sorted(per.items())}
-    rep.coverage["e2e_rule"] = "pool source programs (thorough: all; quick: the 1/%d selected by the seed) x up to 2 elements of each kind %s x {block comment before, line comment on its own line before, line comment at the end of the element's line}: the marker comment must appear exactly once in the output of every accepted run" % (MOD, E2E_KINDS)
+    rep.coverage["e2e_rule"] = "pool source programs (thorough: all; quick: the 1/%d selected by the seed) x up to 2 elements of each kind %s x {block comment before, line comment on its own line before, line comment / block comment at the end of the element's line} under the program's configuration (and, for every other injection, style_edition 2024): the marker comment must appear exactly once in the output of every accepted run; plus 66 synthetic expressions with a comment only the safety net can keep, after char / byte / string / raw-string literals containing quotes and comment openers" % (MOD, E2E_KINDS)
     return found
 
 
